@@ -15,6 +15,7 @@ const rule = "A case is one history on a fresh database (hashmap ±shadow-delete
 	"Local/Internal/AlwaysMakeSecret/AlwaysMakeCrownjewel combinations, hook register/cancel (phases × pass/veto/replace), Put/PutNew/Delete/MakeSecret/" +
 	"MakeCrownJewel/SetAbsoluteExpiry/InsertValue/Get/PushUpdate on keys inside and outside the prefixes with all flag combinations, feeds drained after every " +
 	"operation (or not at all until > 1000 writes: overflow kind), raw storage reads around vetoed writes, delayed-write interfaces, malformed lines; " +
+	"config-push kind: the real config package injected as database, option updates pushed to exact/prefix/other subscriptions before and after cancel; " +
 	"concurrent kind: recorded traces of writers vs. Subscribe vs. Cancel (forced at the verif event points) replayed through the interleaving model. " +
 	"Non-trivial = at least one subscription or hook is active and at least one write succeeds while it is (sequential), or at least one send/cancel event (concurrent); " +
 	"distinct = different op/event sequences."
@@ -316,7 +317,7 @@ func gen(r *hxlib.Run, emit func(hxlib.Case)) {
 	for _, c := range corpus {
 		emit(hxlib.Case{Lines: c, Kind: "corpus", NonTrivial: true})
 	}
-	n := r.Budget(4000, 60000)
+	n := r.Budget(9000, 120000)
 	for i := 0; i < n; i++ {
 		x := r.Rng.Intn(100)
 		nops := 6 + r.Rng.Intn(30)
@@ -339,6 +340,9 @@ func gen(r *hxlib.Run, emit func(hxlib.Case)) {
 	}
 	for i, n := 0, r.Budget(3, 30); i < n; i++ {
 		emit(genOverflow(r))
+	}
+	for i, n := 0, r.Budget(40, 400); i < n; i++ {
+		emit(hxlib.Case{Lines: []string{fmt.Sprintf("cfgpush %d", 1+r.Rng.Intn(5))}, Kind: "config-push", NonTrivial: i < 5, NoModel: true})
 	}
 	genConcurrent(r, emit)
 }
